@@ -441,8 +441,23 @@ def main_tconv(cases):
     return out
 
 
+def main_padskirt(cases):
+    """[same, h, w, kh, kw, sy, sx, dy, dx]: calc_padding_and_skirt on a Kernel and an input shape: (top, left, bottom, right)"""
+    from ethosu.vela.operation import Kernel, Padding
+    from ethosu.vela.shape4d import Shape4D
+    from ethosu.vela.tflite_graph_optimiser import calc_padding_and_skirt
+    out = []
+    for same, h, w, kh, kw, sy, sx, dy, dx in cases:
+        pad, skirt = calc_padding_and_skirt(Padding.SAME if same else Padding.VALID, Kernel(kw, kh, sx, sy, dx, dy), Shape4D(1, h, w, 8), None)
+        out.append([int(v) for v in pad])
+    return out
+
+
 def main():
     cases = json.load(open(sys.argv[1]))
+    if len(sys.argv) > 3 and sys.argv[3] == "padskirt":
+        json.dump(main_padskirt(cases), open(sys.argv[2], "w"))
+        return
     if len(sys.argv) > 3 and sys.argv[3] == "tconv":
         json.dump(main_tconv(cases), open(sys.argv[2], "w"))
         return
